@@ -183,6 +183,11 @@ def execute(prog):
                     core.bump(out["faults"], "byzantine_R_infinity")
                 else:
                     r_, s_ = it["r"], it["s"]
+                    if fmt == "der" and it["fseed"] % 11 == 0:
+                        # a kilobyte-sized INTEGER (out of range by far)
+                        r_ = (1 << (8 * (1800 + it["fseed"] % 2500))) + r_
+                        if it["fseed"] % 2:
+                            r_, s_ = s_, r_
                     core.bump(out["faults"], "byzantine_pair")
                 data = _encode(fmt, r_, s_, L)
                 if data is None:
